@@ -21,6 +21,7 @@ Nothing is executed; the expansion is purely syntactic and bounded (depth MAX_DE
 from __future__ import annotations
 
 import ast
+import os
 import copy
 
 MAX_STMTS = 60
@@ -671,6 +672,16 @@ def expand_repo(repo):
         for f in list(m.functions.values()):
             if f.parent is None:
                 inl.expand(f)
+    # expanding a helper can create new comprehensions over constant tables (`_load(d, ('a', 'b'))` with the keys as an
+    # argument): unroll those modules once more
+    if inl.sites and os.environ.get('VERIF_NO_UNROLL') != '1':
+        from .unroll import unroll
+        touched = {f_.rsplit('.', 1)[0] for f_, _g in inl.sites}
+        for m in repo.modules.values():
+            if any(t == m.name or t.startswith(m.name + '.') for t in touched):
+                _t, nu, ns = unroll(m.tree)
+                repo.n_unrolled = getattr(repo, 'n_unrolled', 0) + nu
+                repo.n_spliced = getattr(repo, 'n_spliced', 0) + ns
     for m in repo.modules.values():
         ast.fix_missing_locations(m.tree)
     repo.inlined_sites = inl.sites
